@@ -649,6 +649,20 @@ class VecExpr:
             if n.id not in self.env:
                 raise TranslateError(f"unknown name {n.id}")
             return self.env[n.id]
+        if isinstance(n, ast.Attribute) and n.attr == "T":
+            a, ta = self.tr(n.value)
+            if ta == "v":
+                return (a, "v")          # transpose of a 1-D array: the array itself
+        if isinstance(n, ast.Call) and isinstance(n.func, ast.Attribute) and n.func.attr == "astype" and len(n.args) == 1 \
+                and ast.unparse(n.args[0]) == "np.float64" and all(k.arg == "copy" for k in n.keywords):
+            a, ta = self.tr(n.func.value)
+            if ta == "v":
+                return (a, "v")          # the model's vectors are float64 already
+        if isinstance(n, ast.BinOp) and isinstance(n.op, ast.Mult):
+            (a, ta), (b, tb) = self.tr(n.left), self.tr(n.right)
+            if ta == "f" and tb == "v":
+                return (f"(List.map (fun e_ => PrimFloat.mul {a} e_) {b})", "v")   # scalar * array, element-wise
+            raise TranslateError("unsupported operand types in " + ast.unparse(n))
         if isinstance(n, ast.BinOp) and isinstance(n.op, (ast.Sub, ast.Add)):
             (a, ta), (b, tb) = self.tr(n.left), self.tr(n.right)
             if ta == tb == "v":
@@ -688,7 +702,7 @@ class VecExpr:
 def gen_base():
     tree = ast.parse(_src("base.py"))
     L = ["(* GENERATED from /repo/lbfgsb/base.py and main.py by harness/translate.py - do not edit *)",
-         "From Coq Require Import List Floats.PrimFloat.", "From LBFGSB Require Import Model.FloatVec.", "Import ListNotations.", ""]
+         "From Coq Require Import List String Floats.PrimFloat.", "From LBFGSB Require Import Model.FloatVec.", "Import ListNotations.", ""]
     # projgr: a single return statement
     fn = _func(tree, "projgr")
     args = [a.arg for a in fn.args.args]
@@ -710,16 +724,59 @@ def gen_base():
     if ty != "b":
         raise TranslateError("is_any_inf: the result is not a boolean")
     L.append(f"Definition is_any_inf (arrs : list vec) : bool := {t}.")
+    # clip2bounds: `if x0.dtype != np.float64: return <e1>` then `return <e2>`, both the same vector expression for float64 input
+    fn = _func(tree, "clip2bounds")
+    body = [st for st in fn.body if not (isinstance(st, ast.Expr) and isinstance(st.value, ast.Constant))]
+    if [a.arg for a in fn.args.args] != ["x0", "lb", "ub"] or len(body) != 2 or not isinstance(body[0], ast.If) or not isinstance(body[1], ast.Return) \
+            or ast.unparse(body[0].test) != "x0.dtype != np.float64" or len(body[0].body) != 1 or not isinstance(body[0].body[0], ast.Return) or body[0].orelse:
+        raise TranslateError("clip2bounds: unexpected shape")
+    ve = VecExpr({a: (a, "v") for a in ("x0", "lb", "ub")})
+    t1, ty1 = ve.tr(body[0].body[0].value)
+    t2, ty2 = ve.tr(body[1].value)
+    if ty1 != "v" or ty2 != "v" or t1 != t2:
+        raise TranslateError("clip2bounds: the two branches differ on float64 input")
+    L.append(f"Definition clip2bounds (x0 lb ub : vec) : vec := {t2}.")
+    # every point the package forms as  x + alpha * d  is projected back onto the box: the iterate update of main.py and the
+    # three trial-point expressions of linesearch.py, translated as vector expressions
+    def proj_sites(tree_, fname, start):
+        fn_ = _func(tree_, fname)
+        out_ = []
+        for c_ in ast.walk(fn_):
+            if isinstance(c_, ast.Call) and ast.unparse(c_.func) == "np.clip" and len(c_.args) == 3 and isinstance(c_.args[0], ast.BinOp) \
+                    and isinstance(c_.args[0].op, ast.Add) and isinstance(c_.args[0].left, ast.Name) and c_.args[0].left.id == start:
+                out_.append(c_)
+        return out_
+    mt0 = ast.parse(_src("main.py"))
+    lt0 = ast.parse(_src("linesearch.py"))
+    sites = [("main", c_, "x") for c_ in proj_sites(mt0, "minimize_lbfgsb", "x")] + [("linesearch", c_, "x0") for c_ in proj_sites(lt0, "line_search", "x0")]
+    if len([1 for w, _, _ in sites if w == "main"]) != 1 or len([1 for w, _, _ in sites if w == "linesearch"]) != 3:
+        raise TranslateError(f"projection sites: expected 1 in minimize_lbfgsb and 3 in line_search, found {[(w, ast.unparse(c_)) for w, c_, _ in sites]}")
+    terms = set()
+    for w, c_, st in sites:
+        mul = c_.args[0].right
+        if not (isinstance(mul, ast.BinOp) and isinstance(mul.op, ast.Mult) and isinstance(mul.left, ast.Name) and isinstance(mul.right, ast.Name) and mul.right.id == "d"):
+            raise TranslateError("projection site of unexpected shape: " + ast.unparse(c_))
+        env_ = {st: ("x", "v"), mul.left.id: ("a", "f"), "d": ("d", "v"), "lb": ("lb", "v"), "ub": ("ub", "v")}
+        t_, ty_ = VecExpr(env_).tr(c_)
+        if ty_ != "v":
+            raise TranslateError("projection site is not a vector: " + ast.unparse(c_))
+        terms.add(t_)
+    if len(terms) != 1:
+        raise TranslateError("the projection sites are not the same expression")
+    L.append(f"Definition projected_point (x : vec) (a : float) (d lb ub : vec) : vec := {terms.pop()}.")
+    L.append("Definition projection_sites_src : list string := [" + "; ".join(coq_string(w + ": " + ast.unparse(c_)) + "%string" for w, c_, _ in sites) + "].")
     # the call sites in main.py: is_boxed, the loop guard and the final test
     mt = ast.parse(_src("main.py"))
     mf = _func(mt, "minimize_lbfgsb")
     boxed = [st for st in ast.walk(mf) if isinstance(st, (ast.Assign, ast.AnnAssign)) and ast.unparse(st.targets[0] if isinstance(st, ast.Assign) else st.target) == "is_boxed"]
     if len(boxed) != 1:
         raise TranslateError("is_boxed assignment not found")
-    L.append("From Coq Require Import String. Local Open Scope string_scope.")
+    L.append("Local Open Scope string_scope.")
     L.append("Definition is_boxed_src : string := " + coq_string(ast.unparse(boxed[0].value)) + ".")
+    c2b = sorted({ast.unparse(st) for st in ast.walk(mf) if isinstance(st, ast.Assign) and isinstance(st.value, ast.Call) and ast.unparse(st.value.func) == "clip2bounds"})
     calls = sorted({ast.unparse(c) for c in ast.walk(mf) if isinstance(c, ast.Call) and ast.unparse(c.func) == "projgr"})
     L.append("Definition projgr_call_sites_src : list string := [" + "; ".join(coq_string(c) for c in calls) + "].")
+    L.append("Definition clip2bounds_call_sites_src : list string := [" + "; ".join(coq_string(c) for c in c2b) + "].")
     return "\n".join(L) + "\n"
 
 
